@@ -37,7 +37,7 @@ CfgOf(j) ==
                      LET r == CHOOSE r \in RangeOf(j.plan) : r.o = t[1] /\ r.k = t[2]
                      IN [m |-> r.m, est |-> r.est, eft |-> r.eft]],
          advRounds |-> j.advRounds,
-         perm |-> RangeOf(j.perm) ]
+         perm |-> RangeOf(j.perm), canon |-> FALSE ]
 
 KM(seq) == [k \in {r.k : r \in RangeOf(seq)} |-> (CHOOSE r \in RangeOf(seq) : r.k = k).m]
 
@@ -56,7 +56,7 @@ Abs(c) ==
                ingStatus |-> c.cl.ingStatus ],
       tasks |-> [t \in {<<r.o, r.k>> : r \in RangeOf(c.tasks)} |->
                    LET r == CHOOSE r \in RangeOf(c.tasks) : r.o = t[1] /\ r.k = t[2]
-                   IN [ status |-> r.status, m |-> r.m, ast |-> r.ast, aft |-> r.aft,
+                   IN [ status |-> r.status, m |-> r.m, alloc |-> r.alloc, ast |-> r.ast, aft |-> r.aft,
                         dur |-> r.dur, flag |-> r.flag, doff |-> r.doff, pm |-> r.pm ]],
       obs |-> [o \in {r.o : r \in RangeOf(c.obs)} |->
                  LET r == CHOOSE r \in RangeOf(c.obs) : r.o = o
